@@ -394,6 +394,10 @@ VARIANTS = {
 }
 for _v, (_i, _o) in VARIANTS.items():
     IN_FLAG[_v], OUT_FLAG[_v] = _i, _o
+# formats that are a codec plus multi-byte / control-character separators chosen by the format flag itself
+SEP_FORMATS = ["usv", "asv", "usvlite", "asvlite"]
+for _v in SEP_FORMATS:
+    IN_FLAG[_v], OUT_FLAG[_v] = ["--i" + _v], ["--o" + _v]
 SPACE_ALIGNED = ["pprint", "pprint-right", "pprint-barred", "xtab", "dkvp-space"]
 
 
@@ -409,7 +413,7 @@ def data_classes(rng):
     hetero = [Obj([("a", tok()), ("b", tok())]), Obj([("b", tok()), ("c", tok()), ("d", tok())]), Obj([("a", tok())])]
     nested = [Obj([("id", NumText(str(i))), ("req", Obj([("method", rng.choice(TOKENS)), ("sz", [NumText("1"), NumText(str(i + 2)), Obj([("u", rng.choice(TOKENS))])])])),
                    ("tags", [rng.choice(TOKENS), rng.choice(TOKENS)]), ("e", Obj([])), ("l", [])]) for i in range(3)]
-    all_but_nidx = [f for f in FORMATS if f != "nidx"] + ["pprint-right", "pprint-barred", "dkvp-space"]
+    all_but_nidx = [f for f in FORMATS if f != "nidx"] + ["pprint-right", "pprint-barred", "dkvp-space"] + SEP_FORMATS
     # whitespace other than the ASCII space and LF, inside keys and values (never at either end: several readers trim).
     # TAB, NBSP, IDEOGRAPHIC SPACE, EM SPACE, NEL, VT, FF, CR are no field separator of any space-aligned format.
     ws = ["\t", "\u00a0", "\u3000", "\u2003", "\u0085", "\v", "\f", "\r"]
@@ -551,7 +555,7 @@ def run(ctx):
                                "implrun flag-table/flag-eval translator (reflection dump of TOptions)", "python harness; Python json module as JSON parser of mlr output"]
     ctx.assumptions = ["JSON reader/writer, CSV/TSV/... codecs are not modelled here (C01); conversions across formats are tied by mlr runs only",
                        "A->B = A->C->B is proved in Coq only parametrically in reader/writer functions that satisfy round-trip (C02_conv_via)"]
-    deps = ["C02/Harness.vo", "C02/Proofs.vo", "C02/ProofsE.vo", "C02/ProofsF.vo", "C02/FlagProofs.vo", "C02/FlagExtra.vo"]
+    deps = ["C02/Harness.vo", "C02/Proofs.vo", "C02/ProofsE.vo", "C02/ProofsF.vo", "C02/FlagProofs.vo", "C02/FlagExtra.vo", "C02/Codecs.vo", "C02/Mlrrc.vo", "C02/MlrrcTable.vo"]
     parts = set((os.environ.get("C02_PARTS") or "1,2,3").split(","))   # developer switch; the registered commands run all parts
     flags_mod = c02_flags if "2" in parts else None
     if flags_mod is not None:
@@ -561,7 +565,7 @@ def run(ctx):
                 # summary only: the full table/evaluations live in coq/gen/Gen_Flags.v (the evidence file must stay small)
                 ctx.cov["flags"] = {"table_entries": len(g["table"]), "separator_aliases": len(g["seps"]), "argvs_evaluated": len(g["argvs"]),
                                     "argvs_rejected": sum(1 for v in g["evals"].values() if not v.get("ok") or v.get("final") is None),
-                                    "changed_option_fields": len(g.get("changed") or []), "generated_file": "coq/gen/Gen_Flags.v"}
+                                    "generated_file_changed": bool(g.get("changed")), "generated_file": "coq/gen/Gen_Flags.v"}
         except Exception as ex:
             ctx.violation({"broken": "gen_flags", "detail": repr(ex)[-1500:]}, found_input=False)
     forbidden_gate(ctx, ["Base", "C02"])
@@ -580,6 +584,18 @@ def run(ctx):
             seen.add(b.get("class"))
             ctx.violation(b)
         ctx.cov["flag_oracle"] = {"mismatches": len(flag_bad), "classes": sorted(seen)}
+        # ---- .mlrrc model (C02.Mlrrc) vs the (text, command-line argv) pairs whose mlr runs were just compared
+        rc_pairs = getattr(ctx, "_c02_rc_pairs", [])
+        if rc_pairs and (ok or coq_make(["C02/Mlrrc.vo"])[0]):
+            terms = ["(%s, %s)" % (coq_bytes(t.encode()), coq_list([coq_bytes(a.encode()) for a in argv])) for t, argv in rc_pairs]
+            b, e = coq_eval_mismatches(ctx, "C02rc", "Base.Record C02.Mlrrc", "bytes * list bytes", "chk_rc", terms)
+            ctx.cov["correspondence_mlrrc"] = {"cases": len(terms), "mismatches": len(b)}
+            if e:
+                ctx.violation({"broken": "correspondence-evaluation C02.Mlrrc", "detail": e[-1500:]}, found_input=False)
+            for i in b[:3]:
+                if i >= 0:
+                    ctx.violation({"broken": "correspondence C02.Mlrrc.chk_rc (model reads the .mlrrc text as other tokens than the command line it was compared with)",
+                                   "mlrrc_text": rc_pairs[i][0], "argv": rc_pairs[i][1]}, found_input=False)
         flag_bad += io_name_probes(ctx)
     p1_bad, p3_bad = [], []
     # the flatten/unflatten correspondence only needs Harness.vo: run it even when a flag-table obligation broke
